@@ -154,6 +154,10 @@ def gen(ctx, size):
     directed.append([L - 1] * 17)
     directed.append([(1 << 252) - 1] * 33)
     # long sums: the integer sum of n reduced scalars exceeds 2^256 from n = 16 on, 2^264 from about 4100 on, ...
+    for n_ in (4100, 8300):
+        # every 52-bit (29-bit) limb saturated in every term
+        for v_ in ((1 << 52) - 1, (1 << 208) - 1, (1 << 252) - 1, (1 << 29) - 1, (1 << 232) - 1):
+            directed.append([v_] * n_)
     for n_ in (257, 4100, 8300, 20000):
         directed.append([L - 1] * n_)
         directed.append([rng.choice([L - 1, L - 2, (1 << 252) + 5, rng.randrange(L)]) for _ in range(n_)])
